@@ -5,10 +5,13 @@ use super::*;
 
 static mut SOURCE_FAILED: bool = false;
 static mut TRIAL_RAN: u8 = 0;
+// the trial outcome is fixed per harness (one #[kani::proof] per outcome): a serde_json::Error whose kind is
+// symbolic would have to be dropped with symbolic contents inside input_matches, which CBMC cannot afford
+static mut OUTCOME: u8 = 0;
 
 fn trial_result() -> Result<(), serde_json::Error> {
 	unsafe { TRIAL_RAN += 1; }
-	let k: u8 = kani::any(); kani::assume(k < 3);
+	let k: u8 = unsafe { OUTCOME };
 	match k {
 		0 => Ok(()),
 		1 => { unsafe { SOURCE_FAILED = true; } Err(serde_json::Error::io(io::ErrorKind::ConnectionReset.into())) }
@@ -22,12 +25,8 @@ fn is_io_contract(_e: &serde_json::Error) -> bool { unsafe { LAST_IS_IO } }
 fn str_stub(_input: &str) -> Result<(), serde_json::Error> { trial_result() }
 fn reader_stub<R: Read>(_input: R) -> Result<(), serde_json::Error> { trial_result() }
 
-#[kani::proof]
-#[kani::unwind(5)]
-#[kani::stub(match_input_str, str_stub)]
-#[kani::stub(match_input_reader, reader_stub)]
-#[kani::stub(serde_json::Error::is_io, is_io_contract)]
-fn json_input_matches_error_mapping() {
+fn json_mapping(outcome: u8) {
+	unsafe { OUTCOME = outcome; }
 	let b: [u8; 3] = kani::any();
 	let n: usize = kani::any(); kani::assume(n <= 3);
 	let r = input_matches(Ref::Slice(&b[..n]));
@@ -39,6 +38,28 @@ fn json_input_matches_error_mapping() {
 	}
 	if !utf8 { assert!(matches!(r, Ok(false)) && unsafe { TRIAL_RAN } == 0); }
 	if unsafe { SOURCE_FAILED } { assert!(r.is_err(), "an I/O fault was swallowed as 'not JSON'"); }
-	kani::cover!(matches!(r, Ok(true))); kani::cover!(matches!(r, Err(_))); kani::cover!(utf8 && matches!(r, Ok(false)));
+	kani::cover!(utf8 && unsafe { TRIAL_RAN } == 1, "trial ran");
 	std::mem::forget(r);
 }
+
+#[kani::proof]
+#[kani::unwind(5)]
+#[kani::stub(match_input_str, str_stub)]
+#[kani::stub(match_input_reader, reader_stub)]
+#[kani::stub(serde_json::Error::is_io, is_io_contract)]
+fn json_input_matches_mapping_ok() { json_mapping(0); }
+
+#[kani::proof]
+#[kani::unwind(5)]
+#[kani::stub(match_input_str, str_stub)]
+#[kani::stub(match_input_reader, reader_stub)]
+#[kani::stub(serde_json::Error::is_io, is_io_contract)]
+fn json_input_matches_mapping_io_error() { json_mapping(1); }
+
+#[kani::proof]
+#[kani::unwind(5)]
+#[kani::stub(match_input_str, str_stub)]
+#[kani::stub(match_input_reader, reader_stub)]
+#[kani::stub(serde_json::Error::is_io, is_io_contract)]
+fn json_input_matches_mapping_syntax_error() { json_mapping(2); }
+
